@@ -19,7 +19,7 @@ RULE = ('Hypothesis RuleBasedStateMachine over the ASan+UBSan agent and a genera
         'either); listing = os.listdir + {., ..} exactly once each with inode/type/name length of lstat; resume yields exactly the '
         'following entries; cookie 0 yields the full listing again. Non-trivial = operation through a non-pre-open directory '
         'descriptor, a path within the limit zone or beyond it, a listing needing >= 3 calls, a resume or a restart; distinct by '
-        'history.')
+        'history. Bytes delivered of a directory entry that did not fit are the beginning of the record the next call delivers. Concurrent job: 2-8 threads issue mkdir / stat / rename / symlink / readlink / unlink / rmdir rounds below their own pre-opened directories at the same time; return codes, link contents and final trees equal those of running the same scripts one after the other; every case is non-trivial.')
 ASSUME = ['tmpfs directory offsets are stable while the directory is unchanged (telldir/seekdir cookies)',
           'real and mirror roots have the same path length']
 
